@@ -25,6 +25,11 @@ impl ContentCollector {
         }
     }
 
+    /// True from a content-bearing method until the last byte of its body.
+    pub(super) fn is_collecting(&self) -> bool {
+        self.kind.is_some()
+    }
+
     pub(super) fn collect_deliver(&mut self, deliver: Deliver) -> Result<()> {
         match self.kind.take() {
             None => {
